@@ -301,11 +301,15 @@ def main():
         known_seen = {}
         unknown = []
         for f_ in failures:
-            fid = classify(prop, f_, findings)
+            fid = f_.get("known") or classify(prop, f_, findings)
             if fid:
                 known_seen.setdefault(fid, []).append(f_)
             else:
                 unknown.append(f_)
+        known_total = {}
+        for r in results:
+            for k, v in r.get("known_counts", {}).items():
+                known_total[k] = known_total.get(k, 0) + v
         lines = []
         for e in findings:
             if e["id"] in known_seen:
@@ -356,7 +360,7 @@ def main():
                 "skipped_cases": skipped,
                 "workers": [{"hashseed": r["hashseed"], "evaluations": r["evaluations"], "wall_s": r.get("wall_s")} for r in results],
                 "worker_errors": werrors,
-                "known_findings_seen": {k: len(v) for k, v in known_seen.items()},
+                "known_findings_seen": known_total,
                 "proof_wall_s": round(t_proof, 1),
             },
             "assumptions": list(getattr(mod, "ASSUMPTIONS", [])),
@@ -369,8 +373,8 @@ def main():
         for l in lines:
             print(l)
         print(f"[{prop}] tier={tier} seed={seed} obligations={len(ps['discharged'])}/{len(ps['obligations'])} "
-              f"cases={evaluations} distinct_nontrivial={len(keys)} failures={len(failures)} "
-              f"known={sum(len(v) for v in known_seen.values())} wall={ev['wall_s']}s")
+              f"cases={evaluations} distinct_nontrivial={len(keys)} failures={sum(s_['fail'] for s_ in streams.values())} "
+              f"known={sum(known_total.values())} wall={ev['wall_s']}s")
         sys.exit(exit_code)
     except SystemExit:
         raise
